@@ -1529,7 +1529,7 @@ func init() {
 
 func init() {
 	register(&Rule{
-		Name: "client-loop-shape", Props: []string{"C02", "C07", "C11", "C12", "C18"}, Engine: "FDE", Floor: 14,
+		Name: "client-loop-shape", Props: []string{"C02", "C07", "C11", "C12", "C18"}, Engine: "FDE", Floor: 16,
 		Doc: "glue of the client's loops that no other rule pins: the handshake sends the caller's SETTINGS (copied) and a connection WINDOW_UPDATE carrying the given credit, each attached to its frame and written; WINDOW_UPDATE frames are applied to the stream they name and, on stream 0, to the connection; a frame is routed to the connection-level switch exactly when its stream id is 0; dispatch resolves the request with nil when END_STREAM arrived without error and with the error otherwise; the read loop leaves on `stop || drained`; the request context learns its connection and stream before the request is queued; the body cut advances the pending body; each DATA frame carries END_STREAM iff it is the last of a final run; the release closure marks itself before unlocking; closeErr never yields nil; a GOAWAY with a last stream records it and marks the connection closing",
 		Run: ruleClientLoopShape,
 	})
@@ -1611,8 +1611,9 @@ func ruleClientLoopShape(p *Prog, r *Out) {
 	// routing: connection-level switch exactly for stream 0
 	var routeIf *ast.IfStmt
 	ast.Inspect(rn.Body, func(n ast.Node) bool {
-		if ifs, ok := n.(*ast.IfStmt); ok && routeIf == nil && strings.Contains(p.text(ifs.Cond), "fr.Stream()") && len(ifs.Body.List) == 1 {
-			if b, ok := ifs.Body.List[0].(*ast.BranchStmt); ok && b.Tok == token.BREAK {
+		if ifs, ok := n.(*ast.IfStmt); ok && routeIf == nil && strings.Contains(p.text(ifs.Cond), "fr.Stream()") && len(ifs.Body.List) >= 1 {
+			// the branch ends by leaving the reader's loop, whatever it does first
+			if b, ok := ifs.Body.List[len(ifs.Body.List)-1].(*ast.BranchStmt); ok && b.Tok == token.BREAK {
 				routeIf = ifs
 			}
 		}
@@ -1621,6 +1622,48 @@ func ruleClientLoopShape(p *Prog, r *Out) {
 	c := fdeCheck{p, r, p.pos(rn.Pos())}
 	if routeIf != nil {
 		c.expr("frames on a stream leave the connection-level reader", routeIf.Cond, fdeDomain{[]string{"fr.Stream()"}, [][]int64{{0, 1, 2, 3, 1 << 30}}}, nil, func(e fdeEnv) int64 { return b2i(e["fr.Stream()"] != 0) }, "fr.Stream() != 0", "SETTINGS, PING, GOAWAY and connection WINDOW_UPDATE live on stream 0 and everything else belongs to a request")
+		// a frame that belongs to the other side of that line is a connection error
+		wrongOn, wrongOff := false, false
+		for _, st := range routeIf.Body.List {
+			if in, ok := st.(*ast.IfStmt); ok && in.Init != nil && squash(p.text(in.Init)) == "t:=fr.Type()" {
+				got := map[string]bool{}
+				for _, d := range disjuncts(in.Cond) {
+					got[squash(p.text(d))] = true
+				}
+				okErr := false
+				for _, b := range in.Body.List {
+					if as, ok := b.(*ast.AssignStmt); ok && len(as.Lhs) == 1 && p.text(as.Lhs[0]) == "err" {
+						if cl, code, okE := p.errorCall(as.Rhs[0]); okE && cl == "GoAway" && code == 1 {
+							okErr = true
+						}
+					}
+				}
+				wrongOn = okErr && len(got) == 3 && got["t==FrameSettings"] && got["t==FramePing"] && got["t==FrameGoAway"]
+			}
+		}
+		ast.Inspect(rn.Body, func(n ast.Node) bool {
+			cc, ok := n.(*ast.CaseClause)
+			if !ok || len(cc.List) != 6 {
+				return true
+			}
+			got := map[string]bool{}
+			for _, e := range cc.List {
+				got[p.text(e)] = true
+			}
+			if !(got["FrameData"] && got["FrameHeaders"] && got["FramePriority"] && got["FrameResetStream"] && got["FramePushPromise"] && got["FrameContinuation"]) {
+				return true
+			}
+			for _, b := range cc.Body {
+				if as, ok := b.(*ast.AssignStmt); ok && len(as.Lhs) == 1 && p.text(as.Lhs[0]) == "err" {
+					if cl, code, okE := p.errorCall(as.Rhs[0]); okE && cl == "GoAway" && code == 1 {
+						wrongOff = true
+					}
+				}
+			}
+			return true
+		})
+		r.check(wrongOn, "SETTINGS, PING or GOAWAY with a stream identifier ends the connection", p.pos(routeIf.Pos()), "stream != 0 and type in {SETTINGS, PING, GOAWAY} -> PROTOCOL_ERROR connection error", "readNext hands a SETTINGS, PING or GOAWAY frame that carries a stream identifier to the stream reader, which drops it: a SETTINGS frame is then neither applied, nor acknowledged, nor the end of the connection (RFC 7540 s6.5, 6.7, 6.8)")
+		r.check(wrongOff, "a stream frame on stream 0 ends the connection", p.pos(rn.Pos()), "stream 0 and type in {DATA, HEADERS, PRIORITY, RST_STREAM, PUSH_PROMISE, CONTINUATION} -> PROTOCOL_ERROR connection error", "readNext ignores DATA, HEADERS, PRIORITY, RST_STREAM, PUSH_PROMISE or CONTINUATION on stream 0 instead of ending the connection: a PUSH_PROMISE there gets past the refusal of pushes")
 	} else {
 		r.bad("frames on a stream leave the connection-level reader", c.pos, "readNext no longer hands frames with a stream id to its caller")
 	}
@@ -1977,7 +2020,24 @@ func ruleServerLoopShape(p *Prog, r *Out) {
 	})
 	r.check(refuse, "a refused stream is told so", pos, "writeReset(fr.Stream(), RefusedStreamError)", "a stream that is refused (limit reached, or the connection is closing) no longer gets RST_STREAM(REFUSED_STREAM): the client waits for a response that never comes, and cannot know the request is safe to retry")
 	r.check(take, "accepting a request stream takes its slot and records its id", pos, "if HEADERS { openStreams++; sc.lastID = fr.Stream() }", "accepting HEADERS on a new stream no longer increments the open-stream count and records the id as the highest accepted, together: the concurrency limit drifts, or GOAWAY and the id-ordering tests work from a stale id")
-	r.check(closings == 2, "the loop leaves only when closing and every promised stream has finished", pos, "closing && canCloseAfterGoAway() -> break loop (after a handler report and after a frame)", fmt.Sprintf("%d of the 2 graceful-close tests are the conjunction of 'a GOAWAY was sent' and 'every stream it promised has finished' followed by leaving the loop: with anything weaker the connection is cut under running requests, with anything stronger Serve never returns", closings))
+	// ... and one stands wherever a stream can leave the table: after a handler's report (abandoned or answered), at the end of the request-timeout arm, after the connection-level frames that release blocked responses, after a stream frame
+	perArm := map[string]int{}
+	ast.Inspect(hs.Body, func(n ast.Node) bool {
+		cc, ok := n.(*ast.CommClause)
+		if !ok || cc.Comm == nil {
+			return true
+		}
+		arm := squash(p.text(cc.Comm))
+		ast.Inspect(cc, func(x ast.Node) bool {
+			if ifs, ok := x.(*ast.IfStmt); ok && (p.isConjunctionOf(ifs.Cond, "isClosing()", "canCloseAfterGoAway()") || p.isConjunctionOf(ifs.Cond, "wasClosing", "canCloseAfterGoAway()")) {
+				perArm[arm]++
+			}
+			return true
+		})
+		return true
+	})
+	r.check(perArm["strm:=<-sc.handlerDone"] >= 2 && perArm["<-sc.maxRequestTimer.C"] >= 1 && perArm["fr,ok:=<-sc.reader"] >= 2, "the graceful-close test stands wherever a stream can leave the table", pos, "handlerDone arm: abandoned and answered; timer arm; reader arm: stream-0 frames and stream frames", fmt.Sprintf("the stream loop no longer asks 'closing and every promised stream finished?' after each way a stream leaves the table (found per arm: %v): when the last promised stream leaves that way nothing asks again and Serve stays for as long as the peer keeps the socket open", perArm))
+	r.check(closings == 5, "the loop leaves only when closing and every promised stream has finished", pos, "closing && canCloseAfterGoAway() -> break loop (after a handler report and after a frame)", fmt.Sprintf("%d of the 5 graceful-close tests are the conjunction of 'a GOAWAY was sent' and 'every stream it promised has finished' followed by leaving the loop: with anything weaker the connection is cut under running requests, with anything stronger Serve never returns", closings))
 	if mismatch != nil {
 		c.expr("content-length disagreement is 'declared and different'", mismatch.Cond, fdeDomain{[]string{"strm.hasContentLength", "strm.recvBody", "strm.contentLength"}, [][]int64{{0, 1}, {0, 3, 5}, {0, 3, 5}}}, nil, func(e fdeEnv) int64 {
 			return b2i(e["strm.hasContentLength"] != 0 && e["strm.recvBody"] != e["strm.contentLength"])
